@@ -4215,7 +4215,19 @@ def h_record_setitem(names, where, length, wlen_delta):
             for j in range(len(names) + 1):
                 for i in range(length):
                     obls += compare(nodeh.at(res['contents'][j], i), Elem(BV(i + (j if j < len(names) else 99) * BASE)), 'record %d field %d' % (i, j))
-    return mdischarge(nc.m, 'RecordArray%s::setitem_field("%s") new field of length %+d' % (list(names), where, wlen_delta), obls, [], replay=None,
+    def replay(model, ent):
+        if wlen_delta != 0 or not names:
+            return False, 'only the accepted case of a record with named fields is replayed', {}
+        # the receiver is asked for its keys again after the call: it must not have changed (the key list is shared between arrays)
+        prog = ''.join('i64 %s ' % fullnative.ints(range(100 * j, 100 * j + length)) for j in range(len(names)))
+        prog += 'record %d %d %s dup i64 %s setfield %s ' % (len(names), length, ' '.join(names), fullnative.ints(range(900, 900 + length)), where)
+        kind, got = fullnative.akrun(prog + 'drop numkeys')
+        payload = dict(program=prog + 'drop numkeys', native=[kind, got], expected=len(names))
+        if kind != 'OK' or got != len(names):
+            return True, 'records with fields %s: after setitem_field("%s") the original array lists %s keys instead of %d (native library %s)' % (list(names), where, got, len(names), kind), payload
+        exp = [dict([(nm, 100 * j + i) for j, nm in enumerate(names)] + [(where, 900 + i)]) for i in range(length)]
+        return akrun_check(prog, exp, 'setitem_field("%s") on records with fields %s' % (where, list(names)))
+    return mdischarge(nc.m, 'RecordArray%s::setitem_field("%s") new field of length %+d' % (list(names), where, wlen_delta), obls, [], replay=replay,
                       extra=dict(bounds='field names concrete (case split), %d records' % length))
 
 
